@@ -83,6 +83,11 @@ claim("C27", T + "dataflow shape of the fee computation: price-table field prove
       "Decides that every live handler's price comes from fields of the price table (found and repaired: CreateToken charged the CreateCoin entry), that every table field travels through import, vote, export, event and at least one fee computation, that RunTx computes gasPrice·(type price + bytes·PayloadByte), converts it through the pool only when the table coin is not the base coin and hands exactly that to Run, that the base value reaches the reward pool, and that ticker fees are taken out of the pool and credited to the zero address only for CreateCoin/CreateToken. Not decided: that the cheaper route is numerically cheaper; rounding.",
       TRUST, "DESIGN.md §4 C27")
 
+
+claim("C06", T + "control-dependence and value-selection analysis of the execution-mode flags (comma-ok results of the context type assertions) over RunTx, the live Runs and their helpers; dispatch/argument agreement of CheckTx and DeliverTx; post-dispatch return classification",
+      "Numeric agreement of the check-time simulation with deliver-time execution is NOT decided. Decides that CheckTx and DeliverTx run the same executor on the same bytes for the same block number over two views of one state, that no rejecting return, response-code store or verdict-relevant value depends on the execution mode (beyond the CheckTx-only gas-price floor and mempool rule the property excludes, and the failure-fee region), and that RunTx never turns an accepted Run into a rejection afterwards (found and repaired: non-positive ticker price).",
+      TRUST + "Read methods return the same values through CheckState as through the State it wraps.", "DESIGN.md §4 C06")
+
 PENDING = "check not built yet in this round; see DESIGN.md §4 for the planned static rule"
 for p in ["C%02d" % i for i in range(1, 30)]:
     if p not in CLAIMS and p != "C12":
